@@ -18,9 +18,9 @@ PLAN = {
                        "bool_equals_bool_optimization", "assign_update_array_optimization", "cache_array_length_optimization",
                        "optimal_comparison_optimization", "number_literal_is_power_of_two", "check_if_inputs_are_power_of_two",
                        "shift_math_optimization", "solidity_keccak256_optimization", "solidity_math_optimization", "multiple_require_optimization"]),
-                  ("det_incdec", None)],
+                  ("det_incdec", None), ("pow2", None)],
         "native": "c05",
-        "bounded_fns": ["number_literal_is_power_of_two (body only: decimal-string arithmetic on bytes; its callers are proved against an uninterpreted spec_pow2_literal)"],
+        "bounded_fns": ["number_literal_is_power_of_two (statements BEFORE its halving loop only: digit filtering / exponent handling / leading-zero removal with iterator adapters and str::parse; the halving loop itself is proved in unit pow2, and the callers are proved against an uninterpreted spec_pow2_literal)"],
     },
     "C07": {
         "units": [(E, ["unsafe_erc20_operation_vulnerability", "floating_pragma_vulnerability", "divide_before_multiply_vulnerability"]),
@@ -37,7 +37,7 @@ PLAN.update({
     "C08": {"units": [("det_state", None)], "native": "c08", "bounded_fns": []},
     "C09": {"units": [("det_gate", None)], "native": "c09",
             "bounded_fns": ["get_solidity_version_from_source_unit (regex-based version extractor: run on the whole version domain by the native check)"]},
-    "C04": {"units": [(E, ALL_EXPR), ("slots", None), ("det_decl", None), ("det_gate", None), ("det_vuln", None), ("det_state", None), ("det_incdec", None)], "walker": True, "native": "c04", "native_profiles": ["release", "nochecks"],
+    "C04": {"units": [(E, ALL_EXPR), ("slots", None), ("det_decl", None), ("det_gate", None), ("det_vuln", None), ("det_state", None), ("det_incdec", None), ("pow2", None)], "walker": True, "native": "c04", "native_profiles": ["release", "nochecks"],
             "bounded_fns": ["every detector not listed under functions_under_contract (all 30 detectors are run on the totality corpus)"]},
     "C19": {"units": [(E, ALL_EXPR), ("det_decl", None), ("det_vuln", None), ("det_incdec", None)], "native": "c19",
             "bounded_fns": ["detectors outside units det_expr / det_decl (whole file vs. all-but-one-item-blanked, bounded)"]},
